@@ -22,7 +22,7 @@ RULE = ('descriptor = seeded batch of scenarios; scenario = 1..8 distinct regist
         'header of those ports dispatched after every step.')
 ASSUMPTIONS = ['matching rule: (header port & port mask) == registered port and (header channel & channel mask) == '
                'registered channel']
-REQUIRED = ['mon.bound_method_registrations_removed_through_a_fresh_lookup_of_the_method', 'mon.received_packets_readdressed_by_a_callback', 'mon.scenarios_with_a_second_dispatcher_in_the_process', 'mon.packets_without_payload', 'mon.removals_of_absent_registrations', 'mon.packets', 'mon.must_deliveries', 'mon.mutations_executed', 'mon.raising_callbacks',
+REQUIRED = ['mon.registrations_switched_from_an_all_packet_callback', 'mon.bound_method_registrations_removed_through_a_fresh_lookup_of_the_method', 'mon.received_packets_readdressed_by_a_callback', 'mon.scenarios_with_a_second_dispatcher_in_the_process', 'mon.packets_without_payload', 'mon.removals_of_absent_registrations', 'mon.packets', 'mon.must_deliveries', 'mon.mutations_executed', 'mon.raising_callbacks',
             'mon.caller_calls', 'mon.self_removals', 'mon.shared_callback_removals',
             'mon.shared_callback_multi_pattern_deliveries', 'mon.deliveries_through_the_public_wrappers']
 
@@ -228,10 +228,28 @@ def run_scenario(ctx, regs, script, raising, headers, label):
         if op in ('add', 'add_remove') and isinstance(arg, dict):
             allregs.append(arg)
     script = [(a, n, op, (allregs.index(arg) if isinstance(arg, dict) else arg)) for (a, n, op, arg) in script]
+    # one more registration (a catch-all) that the application switches on and off from an ALL-packet callback
+    # (cf.packet_received - e.g. "subscribe when the first packet shows the link is up"): such a change is made before the
+    # packet is matched against the registrations, so it already counts for the packet that is being handled
+    toggled = len(allregs)
+    allregs.append({'api': 'header', 'port': 0, 'chan': 0, 'pmask': 0x00, 'cmask': 0x00})
     for rid in range(len(allregs)):
         cbs[rid] = mk(rid)
     for rid in range(len(regs)):
         add(rid)
+
+    def toggle_from_all_packet_callback(pk_):
+        if (pk_._uid * 3 + len(headers)) % 5 != 1:
+            return
+        if toggled in table:
+            remove(toggled)
+        else:
+            add(toggled)
+        state['removed_now'].discard(toggled)
+        state['added_now'].discard(toggled)
+        state['start_override'] = list(table)
+        state['toggles'] = state.get('toggles', 0) + 1
+    cf.packet_received.add_callback(toggle_from_all_packet_callback)
     del extra_regs
     # dispatch packet by packet so that the harness knows the table at the start of each dispatch
     violations = 0
@@ -251,6 +269,7 @@ def run_scenario(ctx, regs, script, raising, headers, label):
         except BaseException as e:  # noqa
             died = e
         ctx.count('mon.packets')
+        start_table = state.pop('start_override', start_table)
         if len(pk.data) == 0:
             ctx.count('mon.packets_without_payload')
         ctx.evals()
@@ -334,6 +353,7 @@ def run_scenario(ctx, regs, script, raising, headers, label):
     ctx.count('mon.mutations_executed', state['mut'])
     ctx.count('mon.self_removals', state['selfrem'])
     ctx.count('mon.removals_of_absent_registrations', state.get('absent_removals', 0))
+    ctx.count('mon.registrations_switched_from_an_all_packet_callback', state.get('toggles', 0))
     ctx.count('mon.bound_method_registrations_removed_through_a_fresh_lookup_of_the_method', state.get('bound_removed', 0))
     ctx.count('mon.received_packets_readdressed_by_a_callback', state.get('readdressed', 0))
     if state.get('library_call_raised'):
